@@ -9,14 +9,6 @@ open Sonic.Spec.Number
 open Sonic.Spec (JNum)
 open Sonic.Model.Number
 
-def expVal : Option (Int × Nat) → Int
-  | none => 0
-  | some (e, _) => e
-
-def expLen : Option (Int × Nat) → Nat
-  | none => 0
-  | some (_, n) => n
-
 theorem isE_iff (c : Nat) : isE c = true ↔ (c = 101 ∨ c = 69) := by simp [isE]
 
 theorem capAcc_zero (ds : List Nat) (hd : ∀ c ∈ ds, isD c = true) (h : digitsVal ds < 100000) :
